@@ -15,6 +15,25 @@ use std::task::{Context, Poll};
 #[derive(Clone)]
 pub enum COp { Get(GetOp), Make(MakeOp) }
 
+/// a store that suspends once inside every lookup, save and update (a slow backend): behind a lock wrapper the
+/// lock is then held across a suspension point and the wrappers are really contended
+#[derive(Clone)]
+pub struct SlowStore(pub MemoryStore);
+#[async_trait::async_trait]
+impl passkey_authenticator::CredentialStore for SlowStore {
+    type PasskeyItem = Passkey;
+    async fn find_credentials(&self, ids: Option<&[passkey_types::webauthn::PublicKeyCredentialDescriptor]>, rp_id: &str) -> Result<Vec<Passkey>, passkey_types::ctap2::StatusCode> {
+        yield_once().await; self.0.find_credentials(ids, rp_id).await }
+    async fn save_credential(&mut self, cred: Passkey, u: passkey_types::ctap2::make_credential::PublicKeyCredentialUserEntity, r: passkey_types::ctap2::make_credential::PublicKeyCredentialRpEntity, o: passkey_types::ctap2::get_assertion::Options) -> Result<(), passkey_types::ctap2::StatusCode> {
+        yield_once().await; self.0.save_credential(cred, u, r, o).await }
+    async fn update_credential(&mut self, cred: Passkey) -> Result<(), passkey_types::ctap2::StatusCode> { yield_once().await; self.0.update_credential(cred).await }
+    async fn get_info(&self) -> passkey_authenticator::StoreInfo { self.0.get_info().await }
+}
+impl Inner for SlowStore {
+    fn all(&self) -> Vec<Passkey> { self.0.values().cloned().collect() }
+    fn put(&mut self, p: Passkey) { self.0.insert(p.credential_id.clone().into(), p); }
+}
+
 enum Out { Get(Result<passkey_types::ctap2::get_assertion::Response, passkey_types::ctap2::StatusCode>), Make(Result<passkey_types::ctap2::make_credential::Response, passkey_types::ctap2::StatusCode>) }
 
 fn summary(o: Out) -> String {
@@ -83,7 +102,12 @@ fn scenario<S: Inner + Clone + 'static>(ctx: &mut Ctx, kind_name: &str, mk: &dyn
     // how many calls does each ceremony make when alone?
     let (_, polls, _, _) = execute(mk(preload), counter_on, ops, uv, None);
     let mut all = vec![];
-    merges(&polls, &mut vec![], &mut polls.clone(), &mut all, usize::MAX.min(200_000));
+    if polls.iter().any(|&p| p >= 64) {
+        // a ceremony that does not finish even when alone: one round-robin schedule shows it
+        all.push((0..8 * ops.len()).map(|i| i % ops.len()).collect());
+    } else {
+        merges(&polls, &mut vec![], &mut polls.clone(), &mut all, usize::MAX.min(200_000));
+    }
     // all interleavings when few, otherwise a seeded sample that keeps the first and last ones
     let chosen: Vec<Vec<usize>> = if all.len() <= cap { all } else {
         let mut v = vec![all[0].clone(), all[all.len() - 1].clone()];
@@ -108,8 +132,49 @@ fn scenario<S: Inner + Clone + 'static>(ctx: &mut Ctx, kind_name: &str, mk: &dyn
     }
 }
 
+/// slow-store scenarios: arbitrary poll orders (a poll of a ceremony waiting for the lock makes no progress, so
+/// these are not call-by-call schedules of the model): only the statement's clauses are evaluated
+fn scenario_slow<S: Inner + Clone + 'static>(ctx: &mut Ctx, label: &str, mk: &dyn Fn(&[Passkey]) -> S, preload: &[Passkey], ops: &[COp], count: usize) {
+    let uv = UvState::ok();
+    for k in 0..count {
+        // strict alternation first, then seeded random orders; 12 polls per ceremony, the executor finishes the rest
+        let sched: Vec<usize> = if k == 0 { (0..12 * ops.len()).map(|i| i % ops.len()).collect() } else { (0..12 * ops.len()).map(|_| ctx.rng.below(ops.len() as u64) as usize).collect() };
+        let r = guarded(|| execute(mk(preload), true, ops, uv, Some(&sched)));
+        ctx.line(&format!("au.reset C19 map 1 16 none"), "");
+        for p in preload { ctx.line(&format!("au.load {}", passkey_line(p)), ""); }
+        match r {
+            None => { ctx.line(&format!("cc.slow {} {}", label, sched.iter().map(|i| i.to_string()).collect::<Vec<_>>().join(",")), "panic"); }
+            Some((sums, _, store, draws)) => {
+                for (i, op) in ops.iter().enumerate() {
+                    match op { COp::Get(g) => ctx.line(&format!("cc.thread G {} {}", g.enc(), uv.enc()), ""),
+                               COp::Make(m) => ctx.line(&format!("cc.thread M {} {} {}", m.enc(), uv.enc(), draws[i]), "") }
+                }
+                let sums: Vec<String> = sums.into_iter().filter(|s| !s.starts_with("extra-rounds")).collect();
+                ctx.line(&format!("cc.slow {} {}", label, sched.iter().map(|i| i.to_string()).collect::<Vec<_>>().join(",")), &format!("res={} store={}", sums.join("|"), store));
+            }
+        }
+        ctx.line("au.end", "");
+        ctx.stat("c19.slow_store_runs");
+    }
+}
+
 pub fn gen(ctx: &mut Ctx) {
     let rp = "example.com";
+    // ---- a slow backend behind each wrapper: the lock is held across a suspension point
+    {
+        let id = vec![0xC1, 0x9A, 1, 2, 3, 4, 5, 6, 7, 8, 9, 10, 11, 12, 13, 14];
+        let pk = make_passkey(ctx, id.clone(), rp, Some(vec![7]), Some(0), None);
+        let get = |ctx: &mut Ctx, with_list: bool| { let mut g = simple_get(ctx, rp); if with_list { g.allow = Some(vec![id.clone()]); } COp::Get(g) };
+        let make = |ctx: &mut Ctx, rk: bool| { let mut m = simple_make(ctx, rp); m.rk = rk; COp::Make(m) };
+        let count = if ctx.thorough { 300 } else { 40 };
+        let scen: Vec<Vec<COp>> = vec![vec![make(ctx, false), make(ctx, true)], vec![get(ctx, true), make(ctx, false)], vec![make(ctx, false), get(ctx, true), make(ctx, true)]];
+        for ops in scen {
+            let pre = vec![pk.clone()];
+            let fill = |pre: &[Passkey]| { let mut m = MemoryStore::new(); for p in pre { m.insert(p.credential_id.clone().into(), p.clone()); } SlowStore(m) };
+            scenario_slow(ctx, "arc-mutex", &|pre: &[Passkey]| Arc::new(tokio::sync::Mutex::new(fill(pre))), &pre, &ops, count);
+            scenario_slow(ctx, "arc-rwlock", &|pre: &[Passkey]| Arc::new(tokio::sync::RwLock::new(fill(pre))), &pre, &ops, count);
+        }
+    }
     let cap3 = if ctx.thorough { 1700 } else { 150 };
     for wrapper in 0..2 {
         for start in [Some(0u32), Some(41), Some(u32::MAX - 1), None] {
@@ -121,6 +186,7 @@ pub fn gen(ctx: &mut Ctx) {
                 (vec![get(ctx), get(ctx)], 10_000),                         // assert / assert on one credential
                 (vec![get(ctx), make(ctx, false)], 10_000),                 // assert / register
                 (vec![make(ctx, true), make(ctx, false)], 10_000),          // register / register
+                (vec![{ let g = simple_get(ctx, rp); COp::Get(g) }, make(ctx, false)], 10_000),   // an assertion that names no credential / register
                 (vec![get(ctx), get(ctx), get(ctx)], cap3),                 // three assertions
                 (vec![get(ctx), make(ctx, false), get(ctx)], cap3),
             ];
